@@ -181,7 +181,7 @@ def emit_cif(atoms: List[dict], null: str = "?", extra_categories: str = "", lab
         vals = [
             a["record"], str(a["serial"]), a["element"] or null, a["name"], a["altloc"] or null, a["resname"], a["chain"], "1",
             str(seq[(a["chain"], a["resseq"], a["icode"])]), a["icode"] or null,
-            f"{a['x']:.3f}", f"{a['y']:.3f}", f"{a['z']:.3f}", f"{a['occ']:.2f}", f"{a['bfac']:.2f}",
+            f"{a['x']:.3f}", f"{a['y']:.3f}", f"{a['z']:.3f}", (f"{a['occ']:.2f}" if a["occ"] is not None else null), f"{a['bfac']:.2f}",
             (str(a["charge"]) if a["charge"] else null), str(a["resseq"]), a["resname"], a["chain"], a["name"], str(a["model"]),
         ]
         toks = []
@@ -351,8 +351,6 @@ def st_tables(max_models=3, max_chains=3, max_residues=5, max_atoms=8, altlocs=T
     from hypothesis import strategies as st
 
     chains_alpha = "ABCDEFGHIJKLMNOPQRSTUVWXYZabcdefghijklmnopqrstuvwxyz0123456789"
-    coord = st.one_of(st.integers(-999999, 999999).map(lambda v: v / 1000.0),
-                      st.integers(-20000, 20000).map(lambda v: v / 1000.0))
     occ = st.sampled_from([1.0, 1.0, 1.0, 0.5, 0.7, 0.3, 0.25, 0.0, 0.65, 0.35])
     bf = st.integers(0, 99999).map(lambda v: v / 100.0)
 
@@ -398,12 +396,28 @@ def st_tables(max_models=3, max_chains=3, max_residues=5, max_atoms=8, altlocs=T
                     record = draw(st.sampled_from(["HETATM", "ATOM"]))
                 residues.append((ch, num, icode, resname, record, names))
         atoms = []
+        GRID = 40
+        origin = draw(st.sampled_from([(0.0, 0.0, 0.0), (0.0, 0.0, 0.0), (-939.0, 12.0, 500.0), (930.0, -960.0, -30.0)]))
+        off = st.integers(-250, 250).map(lambda v: v / 1000.0)
         for m in range(1, nmodels + 1):
             serial = draw(st.sampled_from([1, 1, 1, 7, 5000]))
+            # every atom of a model sits in its own cell of a 1.5 A lattice (+-0.25 A offset):
+            # no two atoms come closer than 1.0 A unless planted below
+            n_slots = sum(len(names) for (_, _, _, _, _, names) in residues) * 3
+            cells = draw(st.lists(st.integers(0, GRID ** 3 - 1), min_size=n_slots, max_size=n_slots, unique=True))
+            cell_iter = iter(cells)
+
+            def place():
+                c = next(cell_iter)
+                i, j, k = c % GRID, (c // GRID) % GRID, c // (GRID * GRID)
+                return (round(origin[0] + (i - GRID // 2) * 1.5 + draw(off), 3),
+                        round(origin[1] + (j - GRID // 2) * 1.5 + draw(off), 3),
+                        round(origin[2] + (k - GRID // 2) * 1.5 + draw(off), 3))
+
             for (ch, num, icode, resname, record, names) in residues:
                 use_alt = altlocs and draw(st.integers(0, 5)) == 0
                 for nm in names:
-                    copies = ["", ""][:1]
+                    copies = [""]
                     if use_alt and draw(st.booleans()):
                         copies = ["A", "B"] if draw(st.booleans()) else ["A", "B", "C"]
                     occs = None
@@ -412,9 +426,10 @@ def st_tables(max_models=3, max_chains=3, max_residues=5, max_atoms=8, altlocs=T
                     for ci, alt in enumerate(copies):
                         el = element_of(nm)
                         charge = draw(st.sampled_from([0, 0, 0, 0, 1, -1, 2, -2, 3]))
+                        x, y, z = place()
                         atoms.append({
                             "record": record, "serial": serial, "name": nm, "altloc": alt, "resname": resname, "chain": ch,
-                            "resseq": num, "icode": icode, "x": draw(coord), "y": draw(coord), "z": draw(coord),
+                            "resseq": num, "icode": icode, "x": x, "y": y, "z": z,
                             "occ": occs[ci] if occs else draw(occ), "bfac": draw(bf), "element": el if draw(st.integers(0, 9)) else "",
                             "charge": charge, "model": m,
                         })
